@@ -623,9 +623,26 @@ _ICOLL = None
 def _inv_replay_chunk(args):
     seed, idxs = args
     import random
+    import time
     import warnings
     warnings.simplefilter("ignore")
     from hippolyzer.lib.base.inventory import InventoryModel
+    # dates of the schema are UTC: a zone with an offset shows any use of local time
+    old_tz = os.environ.get("TZ")
+    os.environ["TZ"] = "America/New_York"
+    time.tzset()
+    try:
+        return _inv_replay_rows(seed, idxs, InventoryModel)
+    finally:
+        if old_tz is None:
+            os.environ.pop("TZ", None)
+        else:
+            os.environ["TZ"] = old_tz
+        time.tzset()
+
+
+def _inv_replay_rows(seed, idxs, InventoryModel):
+    import random
     rng = random.Random(seed)
     gen = _ValueGen(rng, _ICOLL)
     classes = _inv_classes()
@@ -718,17 +735,21 @@ def _inventory(chk: Check):
     if not res.ok or len(erows) != 1 or erows[0]["n"] != len(schema["enums"]):
         raise MachineryError("SchemaText ESpec failed:\n" + res.out[-2000:])
     agg = _Agg()
+    from hippolyzer.lib.base import templates
     for e, a, b in erows[0]["collisions"]:
+        ecls = getattr(templates, e)
+        shared = ecls[a].to_lookup_name()
         agg.add(("lookup name shared", e, a, b), 0,
                 {"kind": "b3", "part": "inventory", "clause": "lookup name shared by two members", "enum": e, "members": sorted([a, b])},
-                {"enum": e, "members": [a, b], "why": "to_lookup_name() maps both members to the same word, so from_lookup_name() "
+                {"enum": e, "members": [a, b], "shared_lookup_name": shared,
+                 "real_from_lookup_name": repr(common.impl_call(ecls.from_lookup_name, shared)),
+                 "why": "to_lookup_name() maps both members to the same word, so from_lookup_name() "
                  "cannot return both: a node carrying one of them does not survive the text / legacy-LLSD round trip"})
     for e, m in erows[0]["notwords"]:
         agg.add(("lookup name is not a word", e, m), 0,
                 {"kind": "b3", "part": "inventory", "clause": "lookup name is not a word", "enum": e, "member": m}, {"enum": e, "member": m})
     _ICOLL = erows[0]["collisions"]
     # every member against the real functions
-    from hippolyzer.lib.base import templates
     for rec in schema["enums"]:
         ecls = getattr(templates, rec["enum"])
         m = ecls[rec["member"]]
@@ -743,12 +764,10 @@ def _inventory(chk: Check):
         chk.nontrivial(("enum", rec["enum"], rec["member"]))
     # laws on every row + export
     laws = "INVARIANT TextLaw\nINVARIANT LLSDLaw\nINVARIANT DataOK\n"
-    res = tlc("SPECIFICATION Spec\n" + laws, "laws", "auto")
-    chk.require_model_ok(res, "SchemaText laws (all presence sets x flavours)")
-    res = tlc("SPECIFICATION MSpec\n", "rows", 1)
+    res = tlc("SPECIFICATION MSpec\n" + laws, "rows", 1)
+    chk.require_model_ok(res, "SchemaText laws on all presence sets x flavours (+ export)")
     if not res.ok:
-        raise MachineryError("SchemaText export failed:\n" + res.out[-2000:])
-    chk.add_tlc(res, "SchemaText_MBT (export)")
+        return
     rows = [r for r in res.printed() if isinstance(r, dict) and r.get("row") == "node"]
     if len(rows) < 100:
         raise MachineryError("SchemaText export printed only %d rows" % len(rows))
@@ -775,6 +794,249 @@ def _inventory(chk: Check):
     chk.sample({"binding": "B3 inventory row", "row": {k: (v if k != "lines" else [[t["k"], t["c"]] for t in v]) for k, v in rows[len(rows) // 2].items()}})
 
 
+# ----------------------------------------------------------------------------------------
+# Animation and mesh clauses (AssetLayout.tla): generated models, layout recomputed by TLC,
+# round-trip equalities recorded
+# ----------------------------------------------------------------------------------------
+
+_EXACT_QUATS = [(0.5, 0.5, 0.5, 0.5), (1.0, 0.0, 0.0, 0.0), (0.0, 1.0, 0.0, 0.0), (0.0, 0.0, 1.0, 0.0), (0.0, 0.0, 0.0, 1.0),
+                (-0.5, 0.5, -0.5, 0.5), (0.0, -1.0, 0.0, 0.0)]
+# exactly representable in the quantised (1, 0) layout: unit axes / end points of the ranges
+_ANCHOR_QUATS = [(1.0, 0.0, 0.0, 0.0), (0.0, 1.0, 0.0, 0.0), (0.0, 0.0, -1.0, 0.0), (0.0, 0.0, 0.0, 1.0)]
+_ANCHOR_POS = [(-5.0, 5.0, -5.0), (5.0, 5.0, 5.0), (0.0, 0.0, 0.0), (5.0, 0.0, -5.0)]
+
+
+def _gen_animation(rng, ver):
+    """Version (0, 1) stores raw F32: every float is a binary fraction, the whole model must survive.
+    Version (1, 0) quantises: the joint "mExact" only uses values the quantised layout represents exactly
+    (range end points, zero, unit quaternions); the other joints use arbitrary floats."""
+    from hippolyzer.lib.base import llanim
+    from hippolyzer.lib.base.datatypes import Vector3, Quaternion
+    from hippolyzer.lib.base.multidict import OrderedMultiDict
+    dur = rng.choice([0.5, 1.0, 2.5, 10.0, 60.0])
+    raw = tuple(ver) == (0, 1)
+
+    def frac(lo, hi):
+        return rng.randrange(int(lo * 64), int(hi * 64) + 1) / 64.0
+    joints = OrderedMultiDict()
+    for _ in range(rng.choice([0, 1, 1, 2, 3])):
+        if raw:
+            rk = [llanim.RotKeyframe(time=frac(0, dur), rot=Quaternion(*rng.choice(_EXACT_QUATS))) for _ in range(rng.randrange(0, 4))]
+            pk = [llanim.PosKeyframe(time=frac(0, dur), pos=Vector3(frac(-5, 5), frac(-5, 5), frac(-5, 5))) for _ in range(rng.randrange(0, 4))]
+        else:
+            rk = [llanim.RotKeyframe(time=rng.random() * dur, rot=Quaternion(*[rng.uniform(-0.5, 0.5) for _ in range(3)]))
+                  for _ in range(rng.randrange(0, 4))]
+            pk = [llanim.PosKeyframe(time=rng.random() * dur, pos=Vector3(*[rng.uniform(-4.9, 4.9) for _ in range(3)]))
+                  for _ in range(rng.randrange(0, 4))]
+        # duplicate joint names are legal (multidict)
+        joints.add(rng.choice(["mPelvis", "mTorso", "m", "mAnkleLeft"]), llanim.Joint(priority=rng.randrange(-1, 7), rot_keyframes=rk, pos_keyframes=pk))
+    if not raw:
+        joints.add("mExact", llanim.Joint(
+            priority=rng.randrange(-1, 7),
+            rot_keyframes=[llanim.RotKeyframe(time=rng.choice([0.0, dur]), rot=Quaternion(*rng.choice(_ANCHOR_QUATS))) for _ in range(rng.randrange(1, 4))],
+            pos_keyframes=[llanim.PosKeyframe(time=rng.choice([0.0, dur]), pos=Vector3(*rng.choice(_ANCHOR_POS))) for _ in range(rng.randrange(1, 4))]))
+    cons = [llanim.Constraint(chain_length=rng.randrange(256), type=llanim.ConstraintType(rng.randrange(2)),
+                              source_volume=rng.choice(["mA", "", "0123456789abcde"]), source_offset=Vector3(1, 2, 3),
+                              target_volume=rng.choice(["mTarget", "GROUND"]), target_offset=Vector3(0, 0.5, 0), target_dir=Vector3(0, 0, 1),
+                              ease_in_start=0.0, ease_in_stop=0.5, ease_out_start=1.0, ease_out_stop=1.5)
+            for _ in range(rng.choice([0, 0, 1, 2, 3]))]
+    return llanim.Animation(major_version=ver[0], minor_version=ver[1], base_priority=rng.randrange(0, 7), duration=dur,
+                            emote_name=rng.choice(["", "smile", "express_anger"]), loop_in_point=0.0, loop_out_point=dur,
+                            loop=rng.randrange(2), ease_in_duration=0.25, ease_out_duration=0.5,
+                            hand_pose=llanim.HandPose(rng.randrange(14)), joints=joints, constraints=cons)
+
+
+def _anim_event(rng, ver):
+    from hippolyzer.lib.base.llanim import Animation
+    a0 = _gen_animation(rng, ver)
+    ev = {"ev": "Anim", "ver": list(ver), "emote": len(a0.emote_name.encode("utf8")),
+          "joints": [{"name": len(k.encode("utf8")), "rot": len(j.rot_keyframes), "pos": len(j.pos_keyframes)} for k, j in a0.joints.items(multi=True)],
+          "ncons": len(a0.constraints), "size": -1, "bytes": [], "rt_model": False, "rt_bytes": False, "rt_exact": False}
+
+    def go():
+        # the generated floats are not representable in the quantised layout: the model under test is the one the
+        # parser produced from them (a model the format can express)
+        a1 = Animation.from_bytes(a0.to_bytes())
+        b1 = a1.to_bytes()
+        a2 = Animation.from_bytes(b1)
+        return a1, b1, a2, a2.to_bytes()
+    st, r = common.impl_call(go)
+    if st != "ok":
+        ev["raised"] = r
+        return ev
+    a1, b1, a2, b2 = r
+    ev["size"] = len(b1)
+    if len(b1) <= 380:
+        ev["bytes"] = list(b1)
+    ev["rt_model"] = bool(a2 == a1)
+    ev["rt_bytes"] = bool(b2 == b1)
+    if tuple(ver) == (0, 1):
+        ev["rt_exact"] = bool(a1 == a0)
+    else:
+        import dataclasses as dc
+        strip = lambda a: dc.replace(a, joints=None)  # noqa
+        ev["rt_exact"] = bool(strip(a1) == strip(a0) and a1.joints.getlist("mExact") == a0.joints.getlist("mExact")
+                              and [k for k, _ in a1.joints.items(multi=True)] == [k for k, _ in a0.joints.items(multi=True)])
+    return ev
+
+
+def _gen_mesh(rng):
+    from copy import deepcopy
+    from hippolyzer.lib.base.mesh import MeshAsset
+    from hippolyzer.lib.base.datatypes import Vector3, Vector2, UUID
+    m = MeshAsset.make_triangle()
+
+    def lod(nverts, weights):
+        # vertex 0 only uses values the quantised arrays represent exactly (range end points)
+        d = {
+            "Normal": [Vector3(*rng.choice([(-1.0, 1.0, -1.0), (1.0, -1.0, 1.0)]))] +
+                      [Vector3(rng.uniform(-1, 1), rng.uniform(-1, 1), rng.uniform(-1, 1)) for _ in range(nverts - 1)],
+            "PositionDomain": {"Max": [0.5, 0.5, 0.25], "Min": [-0.5, -0.5, -0.25]},
+            "Position": [Vector3(*rng.choice([(0.0, 1.0, 0.0), (1.0, 1.0, 0.0)]))] +
+                        [Vector3(rng.random(), rng.random(), rng.random()) for _ in range(nverts - 1)],
+            "TexCoord0Domain": {"Max": [1.0, 1.0], "Min": [0.0, 0.0]},
+            "TexCoord0": [Vector2(*rng.choice([(1.0, 0.0), (0.0, 1.0)]))] + [Vector2(rng.random(), rng.random()) for _ in range(nverts - 1)],
+            "TriangleList": [[rng.randrange(nverts), rng.randrange(nverts), rng.randrange(nverts)] for _ in range(max(1, nverts - 2))],
+        }
+        if weights:
+            d["Weights"] = [[(rng.randrange(0, 8), rng.random()) for _ in range(rng.randrange(1, 5))] for _ in range(nverts)]
+        return d
+    weights = rng.random() < 0.4
+    for name in ("lowest_lod", "low_lod", "medium_lod", "high_lod", "physics_mesh"):
+        if name == "high_lod" or rng.random() < 0.5:
+            m.segments[name] = [lod(rng.randrange(3, 9), weights) for _ in range(rng.randrange(1, 4))]
+            m.header[name] = {"offset": 0, "size": 0}
+        else:
+            m.segments.pop(name, None)
+            m.header.pop(name, None)
+    if rng.random() < 0.5:
+        m.segments["physics_convex"]["HullList"] = [3]
+        m.segments["physics_convex"]["Positions"] = [Vector3(rng.uniform(-1, 1), rng.uniform(-1, 1), rng.uniform(-1, 1)) for _ in range(3)]
+    if weights:
+        m.segments["skin"] = {"joint_names": ["mPelvis", "mTorso"], "bind_shape_matrix": [1.0] * 16,
+                              "inverse_bind_matrix": [[0.5] * 16, [0.25] * 16], "pelvis_offset": 0.0}
+        m.header["skin"] = {"offset": 0, "size": 0}
+    if rng.random() < 0.5:
+        m.header["creator"] = UUID(int=rng.getrandbits(128))
+    # header keys in arbitrary order: placement must not depend on it
+    keys = list(m.header)
+    rng.shuffle(keys)
+    m.header = {k: m.header[k] for k in keys}
+    return m
+
+
+def _mesh_event(rng):
+    import hippolyzer.lib.base.serialization as se
+    from hippolyzer.lib.base.mesh import LLMeshSerializer
+    m0 = _gen_mesh(rng)
+    ev = {"ev": "Mesh", "segs": [], "body": -1, "rt_model": False, "rt_bytes": False, "rt_exact": False}
+
+    def go():
+        ser = LLMeshSerializer()
+
+        def dump(m):
+            w = se.BufferWriter("!")
+            w.write(ser, m)
+            return w.copy_buffer()
+
+        def load(b):
+            r = se.BufferReader("!", b)
+            m = r.read(ser)
+            return m
+        m1 = load(dump(m0))
+        b1 = dump(m1)
+        m2 = load(b1)
+        # length of the header LLSD: parse it alone
+        r = se.BufferReader("!", b1)
+        hdr = r.read(se.BinaryLLSD)
+        return m1, b1, m2, dump(m2), hdr, len(b1) - r.tell()
+    st, r = common.impl_call(go)
+    if st != "ok":
+        ev["raised"] = r
+        return ev
+    m1, b1, m2, b2, hdr, body = r
+    ev["segs"] = [{"name": k, "offset": v["offset"], "size": v["size"]} for k, v in hdr.items()
+                  if isinstance(v, dict) and "offset" in v and "size" in v]
+    ev["body"] = body
+    ev["rt_model"] = bool(m2 == m1)
+    ev["rt_bytes"] = bool(b2 == b1)
+    ev["nseg"] = len(m1.segments)
+
+    def anchors(m):
+        out = []
+        for name in sorted(m.segments):
+            seg = m.segments[name]
+            if isinstance(seg, list):
+                for mat in seg:
+                    out.append((name, tuple(mat["Normal"][0]), tuple(mat["Position"][0]), tuple(mat["TexCoord0"][0]),
+                                [list(t) for t in mat["TriangleList"]], len(mat["Normal"]), len(mat["Position"]), len(mat["TexCoord0"]),
+                                [[int(w[0]) for w in ws] for ws in mat.get("Weights", [])]))
+            else:
+                out.append((name, sorted(k for k in seg)))
+        return out
+    st, same = common.impl_call(lambda: anchors(m1) == anchors(m0) and sorted(m1.header) == sorted(m0.header))
+    ev["rt_exact"] = bool(st == "ok" and same)
+    return ev
+
+
+def _asset_chunk(args):
+    seed, n_anim, n_mesh = args
+    import random
+    import warnings
+    warnings.simplefilter("ignore")
+    rng = random.Random(seed)
+    evs = []
+    for i in range(n_anim):
+        evs.append(_anim_event(rng, (1, 0) if i % 2 == 0 else (0, 1)))
+    for _ in range(n_mesh):
+        evs.append(_mesh_event(rng))
+    return evs
+
+
+def _assets(chk: Check):
+    quick = chk.tier == "quick"
+    n_anim, n_mesh = (40, 12) if quick else (400, 120)
+    jobs = [(chk.rng.randrange(1 << 30), n_anim, n_mesh) for _ in range(common.NCPU)]
+    chunks = common.parallel_map(_asset_chunk, jobs)
+    agg = _Agg()
+    traces = []
+    for evs in chunks:
+        good = []
+        for ev in evs:
+            chk.count()
+            if "raised" in ev:
+                part = "animation" if ev["ev"] == "Anim" else "mesh"
+                agg.add((part, "codec raised"), 0, {"kind": "b2", "part": part, "clause": "codec raised"}, ev)
+                continue
+            ev.pop("nseg", None)
+            good.append(ev)
+        for i in range(0, len(good), 20):
+            traces.append(good[i:i + 20])
+    cfg = "SPECIFICATION TraceSpec\nPOSTCONDITION TraceAccepted\nCHECK_DEADLOCK FALSE\n"
+    acc, rej, results = common.validate_traces("AssetLayout_Trace", cfg, traces, chk.scratch, shards=4, tag="c20a")
+    for r in results:
+        chk.add_tlc(r, "AssetLayout_Trace")
+        if r.assert_failed:
+            raise MachineryError("asset driver violated an environment assumption:\n" + r.out[-1500:])
+        for rec in r.printed():
+            if isinstance(rec, dict) and "fail" in rec:
+                t = traces[rec["tid"]]
+                part = "animation" if rec["fail"].startswith("anim") else "mesh"
+                agg.add((part, rec["fail"]), 0, {"kind": "b2", "part": part, "clause": rec["fail"]},
+                        {"trace_with_the_failing_record": [{k: (v if k != "bytes" else v[:40]) for k, v in e.items()} for e in t[:20]]})
+    for ti, j, ev in rej:
+        agg.add(("asset trace rejected",), j, {"kind": "b2-reject", "part": "assets"}, {"event": {k: v for k, v in ev.items() if k != "bytes"}})
+    agg.report(chk, "B2 assets")
+    chk.cov["traces_validated_against_impl"] += len(traces)
+    for t in traces:
+        for e in t:
+            if e["ev"] == "Anim" and e["joints"] and any(j["rot"] + j["pos"] for j in e["joints"]):
+                chk.nontrivial(("anim", tuple(e["ver"]), e["emote"], tuple((j["name"], j["rot"], j["pos"]) for j in e["joints"]), e["ncons"]))
+            if e["ev"] == "Mesh" and len(e["segs"]) >= 3:
+                chk.nontrivial(("mesh", tuple((s["name"], s["size"]) for s in e["segs"])))
+    chk.sample({"binding": "B2 asset records", "events": [{k: (v if k != "bytes" else v[:16]) for k, v in e.items()} for e in traces[0][:2]]})
+
+
 def run(chk: Check):
     chk.cov["rule"] = ("transfer: B3 sender pieces at the real chunk size for payload lengths around every boundary; B1 every "
                        "arrival sequence with duplicates/foreign packets of the bounded model (scaled chunk size) delivered as "
@@ -789,4 +1051,5 @@ def run(chk: Check):
     ]
     _transfer(chk)
     _inventory(chk)
+    _assets(chk)
     chk.cov["exhaustive"] = True
